@@ -98,18 +98,20 @@ class NaiveBayes(BayesianNetwork):
         for u, v in ebunch:
             self.add_edge(u, v)
 
-    def _get_ancestors_of(self, obs_nodes_list):
+    def _get_ancestors_of(self, nodes):
         """
         Returns a list of all ancestors of all the observed nodes.
 
         Parameters
         ----------
-        obs_nodes_list: string, list-type
+        nodes: string, list-type
             name of all the observed nodes
         """
-        if not obs_nodes_list:
+        if not isinstance(nodes, (list, tuple, set)):
+            nodes = [nodes]
+        if not nodes:
             return set()
-        return set(obs_nodes_list) | set(self.dependent)
+        return set(nodes) | {self.dependent}
 
     def active_trail_nodes(self, start, observed=None):
         """
@@ -136,8 +138,10 @@ class NaiveBayes(BayesianNetwork):
         {'b'}
         """
 
+        if observed is not None and not isinstance(observed, (list, tuple, set)):
+            observed = [observed]
         if observed and self.dependent in observed:
-            return set(start)
+            return {start}
         else:
             return set(self.nodes()) - set(observed if observed else [])
 
@@ -162,10 +166,13 @@ class NaiveBayes(BayesianNetwork):
         (b \u27C2 d, c | a)
         """
         independencies = Independencies()
-        for variable in [variables] if isinstance(variables, str) else variables:
-            if variable != self.dependent:
+        if not isinstance(variables, (list, tuple, set)):
+            variables = [variables]
+        for variable in variables:
+            others = list(set(self.features) - {variable})
+            if variable != self.dependent and others:
                 independencies.add_assertions(
-                    [variable, list(set(self.features) - set(variable)), self.dependent]
+                    [[variable], others, [self.dependent]]
                 )
         return independencies
 
